@@ -190,6 +190,54 @@ expect(c14.shape(m, "db1", None) == "cd=T,cs=T,db=exists,schema=absent", "absent
 m = c14.Model((T, T, "previous", "database+schema"))
 expect(c14.shape(m, "db1", "s1") == "cd=T,cs=T,db=missing,schema=given", "unattached file = missing in the instance")
 
+# names with a character that is active in LIKE / regex / glob patterns, next to look-alike objects: an identifier is a
+# plain name (Snowflake: unquoted identifiers consist of letters, digits, _ and $; D_1, D$1 and DX1 are three databases)
+expect(c14.look_alike("D_1", "DX1") and c14.look_alike("DX1", "D_1") and c14.look_alike("D$1", "DX1"), "look-alike at the active position")
+expect(not c14.look_alike("D_1", "D_1") and not c14.look_alike("D_1", "DX2") and not c14.look_alike("D_1", "DX11") and not c14.look_alike("DB1", "DC1"), "not look-alikes")
+for fam, (d, dd, sc, sd) in c14.FAMILIES.items():
+    D, DD, SC, SD = d.upper(), dd.upper(), sc.upper(), sd.upper()
+    expect(c14.look_alike(D, DD) and c14.look_alike(SC, SD) and any(ch in c14.ACTIVE_CHARS for ch in d) and any(ch in c14.ACTIVE_CHARS for ch in sc), f"{fam}: decoys differ only at the active character")
+    expect(c14.family_args(f"{fam}:nothing") == ((d, None), (d, sc), (d, sd), (dd, None), (dd, sc), (dd, sd)), "family connect alphabet")
+    # fixture mirrored by hand
+    m = c14.Model((T, T, "memory", f"{fam}:decoy_database+database+decoy_schema"))
+    expect(m.cat[DD] == {SC: {}, SD: {"KD": ["(8, 'eight')"]}} and m.cat[D] == {SD: {"KS": ["(9, 'nine')"]}}, f"{fam}: fixture content")
+    expect(c14.Model((T, T, "previous", f"{fam}:decoy_database")).cat.keys() == {"OTHER"}, "previous: look-alike only as a file")
+    expect(set(c14.Model((T, T, "previous", f"{fam}:decoy_database")).disk) == {"OLD", DD, "OTHER"}, "previous: files (previous instance + the bystander database of this one)")
+    for cd, cs in c14.FLAGS:
+        # only the look-alike database exists (holding a schema named exactly like the requested one): the requested
+        # database does not exist -> created iff cd, schema created iff cd and cs; the look-alike is untouched
+        m = c14.Model((cd, cs, "memory", f"{fam}:decoy_database"))
+        expect(c14.shape(m, d, sc).endswith("db=missing,schema=given,decoy_db,decoy_schema"), c14.shape(m, d, sc))
+        expect(c14.shape(m, d, None).endswith("db=missing,schema=absent,decoy_db"), c14.shape(m, d, None))
+        e = m.connect(d, sc)
+        expect((e["created_db"], e["created_schema"], e["has_db"], e["has_schema"]) == (cd, cd and cs, cd, cd and cs), f"{fam} decoy database {(cd, cs)}: {e}")
+        expect((D in m.cat) == cd and m.cat[DD] == {SC: {}, SD: {"KD": ["(8, 'eight')"]}}, "look-alike database untouched")
+        expect((e["database"], e["schema"]) == (D, SC), "names reported as requested")
+        # the database exists with only the look-alike schema: requested schema created iff cs
+        m = c14.Model((cd, cs, "memory", f"{fam}:database+decoy_schema"))
+        expect(c14.shape(m, d, sc).endswith("db=exists,schema=missing,decoy_schema"), c14.shape(m, d, sc))
+        e = m.connect(d, sc)
+        expect((e["created_db"], e["created_schema"], e["has_db"], e["has_schema"]) == (F, cs, T, cs), f"{fam} decoy schema {(cd, cs)}: {e}")
+        expect(m.cat[D][SD] == {"KS": ["(9, 'nine')"]} and (SC in m.cat[D]) == cs, "look-alike schema untouched")
+        # the other direction: the look-alike name is requested while only the name with the active character exists
+        m = c14.Model((cd, cs, "memory", f"{fam}:database+decoy_schema"))
+        expect(c14.shape(m, dd, sd).endswith("db=missing,schema=given,decoy_db,decoy_schema"), c14.shape(m, dd, sd))
+        e = m.connect(dd, sd)
+        expect((e["created_db"], e["created_schema"], e["has_db"], e["has_schema"]) == (cd, cd and cs, cd, cd and cs), f"{fam} reverse {(cd, cs)}: {e}")
+        # the requested schema exists in the database; nothing is created
+        m = c14.Model((cd, cs, "memory", f"{fam}:database+decoy_schema"))
+        e = m.connect(d, sd)
+        expect((e["created_db"], e["created_schema"], e["has_db"], e["has_schema"]) == (F, F, T, T), f"{fam} exact {(cd, cs)}: {e}")
+    for sqls in (c14.prior_sql(f"{fam}:decoy_database+database+decoy_schema"),):
+        creates = [q for q in sqls if q.startswith("create table")]
+        expect(len(creates) == 2 and all("varchar(" in q and "comment =" in q for q in creates), "decoy fixture tables have a sized VARCHAR and a comment")
+expect(len(c14.DECOY_CONFIGS) == 2 * 4 * 4 * 3, "decoy configurations: families x levels x flags x storage")
+expect(c14.decoy_successors("quick", (T, T, "memory", "underscore:nothing"), (("dx1", "sx1"),)) == (("d_1", "s_1"), ("d_1", "sx1"), ("dx1", "s_1"), ("dx1", "sx1")), "quick second step")
+expect(c14.decoy_successors("quick", (T, T, "memory", "underscore:decoy_database"), (("dx1", "sx1"),)) == (), "quick: no second step from fixture priors")
+expect(len(c14.decoy_successors("thorough", (T, T, "memory", "underscore:decoy_database"), (("dx1", "sx1"),))) == 6, "thorough second step")
+# plain-name configurations keep their shapes (no look-alikes around)
+expect(c14.shape(c14.Model((T, T, "previous", "database")), "db1", "s1") == "cd=T,cs=T,db=missing,schema=given", "plain shapes unchanged")
+
 # ---------------------------------------------------------------------------------------------------------------------
 # 3. oracles on synthetic observations
 pre = {"OTHER": {"SO": {"KEEP": ["(1,)"]}, "S1": {}}, "DB1": {"S1": {"T0": ["(7,)"]}}}
